@@ -4,7 +4,7 @@
 From Coq Require Import List ZArith NArith Bool Arith.
 Import ListNotations.
 From RV Require Import Lib.Str Model.DataFile Proofs.DataFileP.
-From RV Require Import Gen.GenFactsPersist.
+From RV Require Import Gen.GenFactsPersist Model.Store Proofs.StoreP.
 
 (** What a session appends to a loadable file is read back by the loader as exactly the data
     points it recorded - each once, whole, in order, for the right run, warm-up included - and
@@ -49,6 +49,29 @@ Print Assumptions C06_columns.
 Theorem C06_writer_structure : header_iff_empty = true /\ persist_locked = true /\ open_locked = true.
 Proof. repeat split; reflexivity. Qed.
 Print Assumptions C06_writer_structure.
+
+(** In the right file: for ANY assignment of runs to experiments and of experiments to data files, and any sequence of data
+    points, a file holds - in the order measured - exactly the data points of the runs that belong to an experiment recorded
+    in that file; each as often as it was measured there (once), and never in a file of an experiment the run is not part of,
+    even when several experiments of a run name the same file.  The shape this rests on is read off the source on every run:
+    the data store hands out one persistence per file name, a run keeps its persistences in a set, every member gets the
+    data point, an experiment adds the persistence of its own file to its runs and nothing else does. *)
+Theorem C06_in_the_right_file :
+  (forall membership ds g, rev (session membership ds g) = filter (belongs membership g) ds)
+  /\ (forall membership ds g d,
+        count_occ rec_eq_dec (session membership ds g) d = if belongs membership g d then count_occ rec_eq_dec ds d else 0)
+  /\ store_one_persistence_per_name = true /\ persistences_are_a_set = true
+  /\ every_persistence_gets_the_data_point = true /\ experiment_adds_its_file = true.
+Proof. split; [exact session_spec|]. split; [exact recorded_exactly_where_it_belongs|]. repeat split; reflexivity. Qed.
+Print Assumptions C06_in_the_right_file.
+
+Example C06_store_example :
+  let membership := fun r => nth r [[0; 1; 0]; [1]]%nat [] in     (* run 0 in two experiments on file 0 and one on file 1 *)
+  let ds := [{| r_run := 0; r_serial := 11 |}; {| r_run := 1; r_serial := 21 |}; {| r_run := 0; r_serial := 12 |}]%nat in
+  map r_serial (rev (session membership ds 0%nat)) = [11; 12]%nat
+  /\ map r_serial (rev (session membership ds 1%nat)) = [11; 21; 12]%nat
+  /\ session membership ds 2%nat = [].
+Proof. vm_compute. repeat split; reflexivity. Qed.
 
 (** Non-vacuity: two data points of one new run appended to an empty file. *)
 Example C06_example :
